@@ -354,6 +354,8 @@ func (c *RemoteClient) SendTxAndMarkOutputs(ctx context.Context, tx *wire.MsgTx,
 		Indexes: indexes,
 	}
 	if err := c.sendMessage(ctx, &Message{Payload: m}, messageTimeout); err != nil {
+		// Not sent, so no response will come for it.
+		c.removeRequest(request, messageTimeout)
 		return err
 	}
 
@@ -430,6 +432,8 @@ func (c *RemoteClient) SendExpandedTxAndMarkOutputs(ctx context.Context,
 		Indexes: indexes,
 	}
 	if err := c.sendMessage(ctx, &Message{Payload: m}, messageTimeout); err != nil {
+		// Not sent, so no response will come for it.
+		c.removeRequest(request, messageTimeout)
 		return err
 	}
 
@@ -525,6 +529,8 @@ func (c *RemoteClient) SaveTxs(ctx context.Context, txs expanded_tx.AncestorTxs)
 		Txs: txs,
 	}
 	if err := c.sendMessage(ctx, &Message{Payload: m}, messageTimeout); err != nil {
+		// Not sent, so no response will come for it.
+		c.removeRequest(request, messageTimeout)
 		return err
 	}
 
@@ -621,6 +627,8 @@ func (c *RemoteClient) GetTx(ctx context.Context, txid bitcoin.Hash32) (*wire.Ms
 	}, "Sending get tx request")
 	m := &GetTx{TxID: txid}
 	if err := c.sendMessage(ctx, &Message{Payload: m}, messageTimeout); err != nil {
+		// Not sent, so no response will come for it.
+		c.removeRequest(request, messageTimeout)
 		return nil, err
 	}
 
@@ -742,6 +750,8 @@ func (c *RemoteClient) GetHeaders(ctx context.Context, height, count int) (*Head
 		MaxCount:      uint32(count),
 	}
 	if err := c.sendMessage(ctx, &Message{Payload: m}, messageTimeout); err != nil {
+		// Not sent, so no response will come for it.
+		c.removeRequest(request, messageTimeout)
 		return nil, err
 	}
 
@@ -830,6 +840,8 @@ func (c *RemoteClient) GetHeader(ctx context.Context, blockHash bitcoin.Hash32) 
 		BlockHash: blockHash,
 	}
 	if err := c.sendMessage(ctx, &Message{Payload: m}, messageTimeout); err != nil {
+		// Not sent, so no response will come for it.
+		c.removeRequest(request, messageTimeout)
 		return nil, err
 	}
 
@@ -925,6 +937,8 @@ func (c *RemoteClient) GetFeeQuotes(ctx context.Context) (merchant_api.FeeQuotes
 	}, "Sending get fee quotes message")
 	m := &GetFeeQuotes{}
 	if err := c.sendMessage(ctx, &Message{Payload: m}, messageTimeout); err != nil {
+		// Not sent, so no response will come for it.
+		c.removeRequest(request, messageTimeout)
 		return nil, err
 	}
 
@@ -996,6 +1010,8 @@ func (c *RemoteClient) ReprocessTx(ctx context.Context, txid bitcoin.Hash32,
 		ClientIDs: clientIDs,
 	}
 	if err := c.sendMessage(ctx, &Message{Payload: m}, messageTimeout); err != nil {
+		// Not sent, so no response will come for it.
+		c.removeRequest(request, messageTimeout)
 		return err
 	}
 
@@ -1068,6 +1084,8 @@ func (c *RemoteClient) MarkHeaderInvalid(ctx context.Context, blockHash bitcoin.
 		BlockHash: blockHash,
 	}
 	if err := c.sendMessage(ctx, &Message{Payload: m}, messageTimeout); err != nil {
+		// Not sent, so no response will come for it.
+		c.removeRequest(request, messageTimeout)
 		return err
 	}
 
@@ -1140,6 +1158,8 @@ func (c *RemoteClient) MarkHeaderNotInvalid(ctx context.Context, blockHash bitco
 		BlockHash: blockHash,
 	}
 	if err := c.sendMessage(ctx, &Message{Payload: m}, messageTimeout); err != nil {
+		// Not sent, so no response will come for it.
+		c.removeRequest(request, messageTimeout)
 		return err
 	}
 
